@@ -472,74 +472,186 @@ def q_sgen_in(outs, sgen):
 
 
 # ----------------------------------------------------------------------------------- C11
+def _struct_same(a, b):
+    from mirsym.values import same
+    if same(a, b):
+        return True
+    if isinstance(a, Struct) and isinstance(b, Struct) and len(a.f) == len(b.f):
+        return all(_struct_same(x, y) for x, y in zip(a.f, b.f))
+    if isinstance(a, Enum) and isinstance(b, Enum):
+        return _struct_same(a.d, b.d) and set(a.p) == set(b.p) and all(_struct_same(a.p[k], b.p[k]) for k in a.p)
+    return False
+
+
+def gen_protocol_ok(start, stores, final_mem):
+    """the documented protocol on one natively observed write: stores = [(value, generation in memory right before)]"""
+    if len(stores) != 2:
+        return False
+    (a, m1), (b, m2) = stores
+    return (a % 2 == 1 and b % 2 == 0 and b != 0 and b != start and (a == start + 1 if start % 2 == 0 else a == start)
+            and (b == 2 if a == 65535 else b == a + 1) and m1 == start and m2 == a and final_mem == b)
+
+
+def native_writegen(rp, g0, n):
+    out = rp.ask('writegen %d %d' % (g0, n))
+    if not out.startswith('ok'):
+        return None, out
+    ws = []
+    for tok in out.split():
+        if tok[0] == 'w' and '=' in tok and tok[1:tok.index('=')].isdigit():
+            start, stores, fin = tok.split('=', 1)[1].split(':')
+            ws.append((int(start), [tuple(int(x) for x in sv.split('@')) for sv in stores.split(',') if sv], int(fin)))
+    return ws, out
+
+
+def value_protocol(ck, P, pr, tier):
+    """C11 (1).  Returns False when the check cannot continue."""
+    from mirsym.seqlock import summarise
+    from mirsym.values import ite as vite
+    T = z3.BoolVal(True)
+    g = z3.Int('g_start')
+    pr.add(g >= 0, g < 65536)
+    gen_loc = (P.wptr_generation.off, 2)
+    fi_names = P.prog.struct_fields.get('ShmWriter') or []
+    usable_v, wipe_ok = P.writer_new_vars
+    # writer objects of the successful paths of ShmWriter::new: (object, "the segment was wiped", generation loads done by new)
+    objs = []
+    for o in P.writer_new_outs:
+        if o.kind != 'return' or 'Ok' not in o.value.p or 'Err' in o.value.p:
+            continue
+        wiped = 'wipe' in [e.kind for e in o.state.trace]
+        lds = [e.ret for e in o.state.trace if e.kind == 'load' and (e.args[1], e.args[2]) == gen_loc]
+        obj = o.value.p['Ok'].f[0]
+        if not any(_struct_same(obj, x[0]) and wiped == x[1] for x in objs):
+            objs.append((obj, wiped, lds))
+    K = 1
+    native_n = 1
+    fails = []
+    shape_unknown = []
+    rounds = 3 if tier == 'quick' else 6
+    wr = P.prog.find1('write', self_ty='ShmWriter')
+    for oi, (obj0, wiped, new_lds) in enumerate(objs):
+        tag = 'new(%s)' % ('wiped segment' if wiped else 'segment reused')
+        cur = z3.IntVal(0) if wiped else g
+        # a generation the constructor loaded is the generation the segment was left at (after a wipe: 0)
+        obj = subst(obj0, [(v, cur) for v in new_lds]) if new_lds else obj0
+        stateless = None
+        for k in range(1, rounds + 1):
+            st = State(); st.mem[(0, 'w')] = obj; st.mem[(0, 'rec')] = Rec([P.ktag] * NW)
+            ex2 = P.new_exec()
+            S = summarise(ex2, wr, [Ref(0, 'w'), Ref(0, 'rec')], st, watch_mem=[(0, 'w')])
+            pr.add(ex2.side)
+            if S.head is not None or len(S.prefix) != 1:
+                ck.inconclusive.append('%s: write #%d has %d event skeletons%s: the value protocol is stated for one' % (tag, k, len(S.prefix), ' and a loop' if S.head is not None else ''))
+                return False
+            grp = S.prefix[0]
+            evs = grp.events
+            sts = [e for e in evs if e.kind == 'store' and (e.args[1], e.args[2]) == gen_loc]
+            wrs = [e for e in evs if e.kind == 'write']
+            order = [e.kind for e in evs]
+            if not (len(sts) == 2 and len(wrs) == 1 and evs.index(sts[0]) < evs.index(wrs[0]) < evs.index(sts[1])):
+                shape_unknown.append((tag, k, order)); break
+            # what the writer's own generation loads return: single writer => the last value it stored (or the start value)
+            pairs = []
+            v1 = v2 = None
+            for e in evs:
+                if e.kind == 'load' and (e.args[1], e.args[2]) == gen_loc:
+                    pairs.append((e.ret, cur if v1 is None else (v1 if v2 is None else v2)))
+                elif e is sts[0]:
+                    v1 = subst(e.info['val'], pairs) if pairs else e.info['val']
+                elif e is sts[1]:
+                    v2 = subst(e.info['val'], pairs) if pairs else e.info['val']
+            guard = subst(grp.guard(), pairs) if pairs else grp.guard()
+            nm = lambda x: '%s, write #%d: %s' % (tag, k, x)
+            clauses = {
+                'every start value is handled (no path is missing)': guard,
+                'in-flight value is odd': v1 % 2 == 1,
+                'in-flight value within u16': z3.And(v1 >= 0, v1 < 65536, v2 >= 0, v2 < 65536),
+                'final value is even': v2 % 2 == 0,
+                'final value is never 0': v2 != 0,
+                'final value differs from the value the segment held before the update': v2 != cur,
+                'from an even start the in-flight value is start+1': z3.Implies(cur % 2 == 0, v1 == cur + 1),
+                'from an odd start (crashed writer) the update continues under that value': z3.Implies(cur % 2 == 1, v1 == cur),
+                'final = in-flight + 1, except at the wrap where it continues at 2': z3.If(v1 == 65535, v2 == 2, v2 == v1 + 1),
+                'from 0 (fresh wipe): 1 then 2': z3.Implies(cur == 0, z3.And(v1 == 1, v2 == 2)),
+                'wrap: 0xFFFE and 0xFFFF both end at 2': z3.Implies(cur >= 65534, v2 == 2),
+                'inductive: post-state is a valid idle state (even, non-zero)': z3.And(v2 % 2 == 0, v2 != 0),
+            }
+            for name, cl in clauses.items():
+                res = pr.prove(nm(name), T, cl, need_reach=False)
+                if isinstance(res, tuple):
+                    fails.append((nm(name), 0 if wiped else mval(res[1], g), k))
+            # the writer object after the call (its private state, if it has any)
+            after = None
+            for a in grp.alts:
+                m = a.mem.get((0, 'w'))
+                m = subst(m, pairs) if pairs else m
+                after = m if after is None else vite(a.guard if not pairs else subst(a.guard, pairs), m, after)
+            stateless = _struct_same(after, obj)
+            K = max(K, k)
+            if stateless:
+                break
+            obj = after; cur = v2
+        ck.cov.setdefault('writer_objects', []).append({'constructor_path': tag, 'writer_has_private_generation_state': (None if stateless is None else not stateless),
+                                                        'writes_chained': k})
+    native_n = K
+    ck.cov['bounds_value_protocol'] = ('write() keeps no private state: one write from every start generation is an inductive step' if K == 1 else
+                                        'write() updates private writer state: %d successive writes after ShmWriter::new from every start generation (longer histories outside)' % K)
+    rp = None
+    if fails or shape_unknown:
+        rp = common.Replay('debug')
+    seen = set()
+    # replay value-protocol counterexamples on the real writer (native, through a real mmapped file)
+    for name, g0, k in fails[:8]:
+        if (g0, k) in seen:
+            continue
+        seen.add((g0, k))
+        ws, out = native_writegen(rp, g0, max(k, 1))
+        if ws is None:
+            ck.inconclusive.append('native writegen replay failed: ' + out); continue
+        bad = [(i + 1, w) for i, w in enumerate(ws) if not gen_protocol_ok(*w)]
+        if bad:
+            i, (start, stores, fin) = bad[0]
+            ck.violation('value-protocol:' + name.split(': ', 1)[-1][:40], 'real ShmWriter::new on a segment left at generation %d, then write() #%d: generation before %d, stored %s (value@memory-before), memory afterwards %d (%s)'
+                         % (g0, i, start, ['%d@%d' % x for x in stores], fin, name), {'cmd': 'writegen %d %d' % (g0, max(k, 1)), 'native': out})
+        else:
+            ck.inconclusive.append('value-protocol counterexample (start %d) did not reproduce natively: %s' % (g0, out))
+    if shape_unknown:
+        # an event shape the symbolic value protocol is not stated for: decide on native runs only; green is not claimed
+        tag, k, order = shape_unknown[0]
+        found = False
+        for g0 in (0, 2, 3, 4, 65534, 65535, 1000, 1001):
+            ws, out = native_writegen(rp, g0, 3)
+            if ws is None:
+                continue
+            bad = [(i + 1, w) for i, w in enumerate(ws) if not gen_protocol_ok(*w)]
+            if bad:
+                i, (start, stores, fin) = bad[0]
+                ck.violation('value-protocol:native', 'real ShmWriter::new on a segment left at generation %d, then write() #%d: generation before %d, stored %s (value@memory-before), memory afterwards %d'
+                             % (g0, i, start, ['%d@%d' % x for x in stores], fin), {'cmd': 'writegen %d 3' % g0, 'native': out, 'events': order})
+                found = True; break
+        if not found:
+            ck.inconclusive.append('%s, write #%d: event list %s is not of the shape [loads]; generation store; record write; generation store - the value protocol is not decided for it' % (tag, k, order))
+    if rp:
+        rp.close()
+    return not shape_unknown
+
+
+
 def check_c11(tier, seed):
     ck = Check('C11', tier, seed)
     P = Programs()
     base_cov(ck, P)
     pr = Prover(seed)
     pr.add(P.side())
-    # (1) value protocol for every start value, from the event list of write()
-    g = z3.Int('g_start')
-    pr.add(g >= 0, g < 65536)
-    groups = P.write.prefix
-    if len(groups) != 1:
-        ck.inconclusive.append('write() has %d event skeletons: the value protocol is stated for one' % len(groups))
+    # (1) value protocol for every start value, from the event list of write(), for a writer created by the real
+    #     ShmWriter::new on a segment left at an arbitrary generation (writer-private state, if any, is chained)
+    if not value_protocol(ck, P, pr, tier):
         return ck.finish()
-    grp = groups[0]
-    evs = grp.events
-    gen_loc = (P.wptr_generation.off, 2)
-    lds = [e for e in evs if e.kind == 'load' and (e.args[1], e.args[2]) == gen_loc]
-    sts = [e for e in evs if e.kind == 'store' and (e.args[1], e.args[2]) == gen_loc]
-    wrs = [e for e in evs if e.kind == 'write']
-    order = [e.kind for e in evs]
-    struct_ok = len(lds) == 1 and len(sts) == 2 and len(wrs) == 1 and evs.index(sts[0]) < evs.index(wrs[0]) < evs.index(sts[1])
-    T = z3.BoolVal(True)
-    res = pr.prove('structure: one generation load, two generation stores, the record write between them (program order)', T, z3.BoolVal(bool(struct_ok)), need_reach=False)
-    if not struct_ok:
-        ck.violation('structure', 'write() event list %s does not have the shape load; store; record write; store' % order, {'events': order})
-        ck.absorb(pr); return ck.finish()
-    pairs = [(lds[0].ret, g)]
-    v1 = subst(sts[0].info['val'], pairs); v2 = subst(sts[1].info['val'], pairs)
-    guard = subst(grp.guard(), pairs)
-    clauses = {
-        'every start value is handled (no path is missing)': guard,
-        'in-flight value is odd': v1 % 2 == 1,
-        'in-flight value within u16': z3.And(v1 >= 0, v1 < 65536, v2 >= 0, v2 < 65536),
-        'final value is even': v2 % 2 == 0,
-        'final value is never 0': v2 != 0,
-        'final value differs from the start value': v2 != g,
-        'from an even start the in-flight value is start+1': z3.Implies(g % 2 == 0, v1 == g + 1),
-        'from an odd start (crashed writer) the update continues under that value': z3.Implies(g % 2 == 1, v1 == g),
-        'final = in-flight + 1, except at the wrap where it continues at 2': z3.If(v1 == 65535, v2 == 2, v2 == v1 + 1),
-        'from 0 (fresh wipe): 1 then 2': z3.Implies(g == 0, z3.And(v1 == 1, v2 == 2)),
-        'wrap: 0xFFFE and 0xFFFF both end at 2': z3.Implies(g >= 65534, v2 == 2),
-        'inductive: post-state is a valid idle state (even, non-zero)': z3.And(v2 % 2 == 0, v2 != 0),
-    }
-    fails = []
-    for name, cl in clauses.items():
-        res = pr.prove(name, T, cl, need_reach=False)
-        if isinstance(res, tuple):
-            fails.append((name, mval(res[1], g)))
-    # replay value-protocol counterexamples on the real writer (native, through a real mmapped file)
-    if fails:
-        rp = common.Replay('debug')
-        for name, g0 in fails[:6]:
-            out = rp.ask('writegen %d' % g0)
-            f = dict(x.split('=') for x in out.split()[1:] if '=' in x) if out.startswith('ok') else {}
-            if f and f.get('inflight') and f.get('final'):
-                a, b = int(f['inflight']), int(f['final'])
-                mem = int(f.get('mem_gen_before2', a))
-                bad = not (a % 2 == 1 and b % 2 == 0 and b != 0 and b != g0 and (a == g0 + 1 if g0 % 2 == 0 else a == g0) and (b == 2 if a == 65535 else b == a + 1)
-                           and mem == a and int(f.get('final_mem', b)) == b)
-                if bad:
-                    ck.violation('value-protocol:' + name[:40], 'real ShmWriter::write() from generation %d: in-flight %d (memory during the update: %d), final %d (%s)' % (g0, a, mem, b, name),
-                                 {'cmd': 'writegen %d' % g0, 'native': out})
-                else:
-                    ck.inconclusive.append('value-protocol counterexample (start %d) did not reproduce natively: %s' % (g0, out))
-            else:
-                ck.inconclusive.append('native writegen replay failed: ' + out)
-        rp.close()
     ck.absorb(pr)
+    if P.writer_private_state:
+        ck.inconclusive.append('third-party-reader scenarios not built: the writer keeps private state across calls (%s)' % P.writer_private_state)
+        return ck.finish()
     # (2) as seen by a conforming third-party reader (acquire loads / acquire fence), under RC11:
     #     whoever observes any word of publication k and then (after an acquire fence) the generation, sees the odd
     #     in-flight value or a later one; whoever acquire-reads the final value sees the complete record.
